@@ -7,15 +7,7 @@ import (
 	"strconv"
 
 	"verif/internal/fw"
-	_ "verif/internal/p07"
-	_ "verif/internal/p11"
-	_ "verif/internal/p13"
-	_ "verif/internal/p14"
-	_ "verif/internal/p16"
-	_ "verif/internal/p17"
-	_ "verif/internal/p19"
 	_ "verif/internal/p20"
-	_ "verif/internal/props"
 )
 
 func seed() int64 {
